@@ -95,6 +95,10 @@ def run(repo: Repo, rep: Report, tier: str) -> None:
     top = enclosing(s, (ast.If,))
     puts = [c for c in walk_no_nested(rp) if isinstance(c, ast.Call) and dotted(c.func) == "self.msg_queue.put"]
     rep.need(len(puts) >= 1, f"{fq}: msg_queue.put vanished")
+    if sizes:
+        # decided by the evaluation above (never-queued: nothing reaches msg_queue for any fill level)
+        rep.ok("not-queued", f"{fq} :: {len(puts)} msg_queue.put site(s)", "decided by evaluating receive_primitive on a C-CANCEL (never-queued)")
+        puts = []
     for c in puts:
         in_body = any(x is c for st in top.body for x in ast.walk(st))
         in_else = any(x is c for st in top.orelse for x in ast.walk(st))
